@@ -188,32 +188,6 @@ fn match_single_shape(body: &str) -> bool {
 pub fn scan_impl(w: &mut World, ctx: &FileCtx, im: &syn::ItemImpl) {
     let Some((_, tr, _)) = &im.trait_ else { return };
     let tname = tr.segments.last().unwrap().ident.to_string();
-    if tname == "Display" && false {
-        // impl Display for ErrorMessages: Self::X => write!(f, "text")
-        if let syn::Type::Path(tp) = &*im.self_ty {
-            if tp.path.segments.last().unwrap().ident == "ErrorMessages" {
-                struct Arms<'a>(&'a mut Vec<(String, String)>);
-                impl<'ast, 'a> Visit<'ast> for Arms<'a> {
-                    fn visit_arm(&mut self, a: &'ast syn::Arm) {
-                        if let syn::Pat::Path(p) = &a.pat {
-                            let name = p.path.segments.last().unwrap().ident.to_string();
-                            if let syn::Expr::Macro(m) = &*a.body {
-                                let toks: Vec<proc_macro2::TokenTree> = m.mac.tokens.clone().into_iter().collect();
-                                if let Some(proc_macro2::TokenTree::Literal(l)) = toks.last() {
-                                    if let Ok(syn::Lit::Str(s)) = syn::parse_str::<syn::Lit>(&l.to_string()) {
-                                        self.0.push((name, s.value()));
-                                    }
-                                }
-                            }
-                        }
-                    }
-                }
-                let mut a = Arms(&mut w.consts.error_msgs);
-                a.visit_item_impl(im);
-            }
-        }
-        return;
-    }
     if tname != "Sequence" {
         return;
     }
@@ -234,6 +208,10 @@ pub fn scan_impl(w: &mut World, ctx: &FileCtx, im: &syn::ItemImpl) {
                         output = abs;
                     }
                 }
+            }
+            syn::ImplItem::Macro(_) => {
+                // items produced by a macro (possibly into_stream itself): the shape cannot be read here
+                mode = Mode::Unrecognised("the impl contains a macro invocation".into());
             }
             syn::ImplItem::Fn(f) if f.sig.ident == "into_stream" => {
                 let mut mf = MacroFinder { name: "try_stream", found: vec![] };
@@ -288,16 +266,39 @@ fn lit_u64(e: &syn::Expr) -> Option<u64> {
         }
         syn::Expr::Reference(r) => lit_u64(&r.expr),
         syn::Expr::Call(c) => {
-            // Some(0x10) / Duration::from_secs(60)
+            // Some(0x10) / Duration::from_secs(60) / Duration::from_millis(60_000): durations count in seconds
             if c.args.len() == 1 {
-                lit_u64(&c.args[0])
+                let callee = match &*c.func {
+                    syn::Expr::Path(p) => p.path.segments.last().map(|s| s.ident.to_string()).unwrap_or_default(),
+                    _ => String::new(),
+                };
+                match (callee.as_str(), lit_u64(&c.args[0])) {
+                    ("from_millis", Some(n)) if n % 1000 == 0 => Some(n / 1000),
+                    ("from_millis", _) | ("from_micros", _) | ("from_nanos", _) => None,
+                    (_, n) => n,
+                }
             } else {
                 None
             }
         }
+        syn::Expr::MethodCall(m) if m.args.is_empty() => lit_u64(&m.receiver),
         syn::Expr::Paren(p) => lit_u64(&p.expr),
         syn::Expr::Cast(c) => lit_u64(&c.expr),
         _ => None,
+    }
+}
+
+impl<'a> ConstFinder<'a> {
+    fn pair(&mut self, k: String, n: u64) {
+        if self.prefix == "zvt_feig_terminal::config" && k.len() == 3 && k.chars().all(|c| c.is_ascii_uppercase()) {
+            if !self.out.currencies.iter().any(|(x, _)| *x == k) {
+                self.out.currencies.push((k, n));
+            }
+        } else if self.prefix == "zvt::feig::sequences" && (k.contains('/') || k.contains('.')) {
+            if !self.out.upload_paths.iter().any(|(x, _)| *x == k) {
+                self.out.upload_paths.push((k, n));
+            }
+        }
     }
 }
 
@@ -313,6 +314,7 @@ impl<'ast, 'a> Visit<'ast> for ConstFinder<'a> {
         if let Some(n) = lit_u64(&c.expr) {
             self.out.nums.push((name, n));
         }
+        syn::visit::visit_item_const(self, c);
     }
     fn visit_item_fn(&mut self, f: &'ast syn::ItemFn) {
         // const fn currency() -> usize { 978 }   and the like: single-literal bodies
@@ -322,42 +324,6 @@ impl<'ast, 'a> Visit<'ast> for ConstFinder<'a> {
                     self.out.nums.push((format!("{}::{}()", self.prefix, f.sig.ident), n));
                 }
             }
-        }
-        if f.sig.ident == "iso_4217" {
-            struct Arms<'b>(&'b mut Vec<(String, u64)>);
-            impl<'ast, 'b> Visit<'ast> for Arms<'b> {
-                fn visit_arm(&mut self, a: &'ast syn::Arm) {
-                    if let syn::Pat::Lit(l) = &a.pat {
-                        if let syn::Lit::Str(s) = &l.lit {
-                            if let Some(n) = lit_u64(&a.body) {
-                                self.0.push((s.value(), n));
-                            }
-                        }
-                    }
-                }
-            }
-            Arms(&mut self.out.currencies).visit_item_fn(f);
-        }
-        if f.sig.ident == "convert_dir" {
-            struct Tuples<'b>(&'b mut Vec<(String, u64)>);
-            impl<'ast, 'b> Visit<'ast> for Tuples<'b> {
-                fn visit_expr_tuple(&mut self, t: &'ast syn::ExprTuple) {
-                    if t.elems.len() == 2 {
-                        let mut path = None;
-                        if let syn::Expr::Call(c) = &t.elems[0] {
-                            if let Some(syn::Expr::Lit(l)) = c.args.first() {
-                                if let syn::Lit::Str(s) = &l.lit {
-                                    path = Some(s.value());
-                                }
-                            }
-                        }
-                        if let (Some(p), Some(n)) = (path, lit_u64(&t.elems[1])) {
-                            self.0.push((p, n));
-                        }
-                    }
-                }
-            }
-            Tuples(&mut self.out.upload_paths).visit_item_fn(f);
         }
         syn::visit::visit_item_fn(self, f);
     }
@@ -387,7 +353,38 @@ impl<'ast, 'a> Visit<'ast> for ConstFinder<'a> {
         // constants inside trait default methods (throttle / take of ResetSequence::into_stream)
         syn::visit::visit_item_trait(self, t);
     }
+    fn visit_expr_tuple(&mut self, t: &'ast syn::ExprTuple) {
+        // tables kept as lists of pairs, wherever they live in the file: ("EUR", 978) in the configuration module (ISO 4217),
+        // ("firmware/kernel.gz", 0x10) / (PathBuf::from("firmware/kernel.gz"), 0x10) in the upload module
+        if t.elems.len() == 2 {
+            fn first_str(e: &syn::Expr) -> Option<String> {
+                match e {
+                    syn::Expr::Lit(l) => match &l.lit {
+                        syn::Lit::Str(s) => Some(s.value()),
+                        _ => None,
+                    },
+                    syn::Expr::Call(c) => c.args.first().and_then(first_str),
+                    syn::Expr::MethodCall(m) => first_str(&m.receiver),
+                    syn::Expr::Reference(r) => first_str(&r.expr),
+                    syn::Expr::Paren(p) => first_str(&p.expr),
+                    _ => None,
+                }
+            }
+            if let (Some(k), Some(n)) = (first_str(&t.elems[0]), lit_u64(&t.elems[1])) {
+                self.pair(k, n);
+            }
+        }
+        syn::visit::visit_expr_tuple(self, t);
+    }
     fn visit_arm(&mut self, a: &'ast syn::Arm) {
+        if let syn::Pat::Lit(l) = &a.pat {
+            if let syn::Lit::Str(k) = &l.lit {
+                if let Some(n) = lit_u64(&a.body) {
+                    self.pair(k.value(), n);
+                }
+            }
+        }
+                
         // the text of a result code, wherever the crate keeps it: an arm `Self::X => "text"` or `Self::X => write!(f, "text")`
         // (in `impl Display`, or in a helper that `Display` calls) inside the module that defines ErrorMessages
         if self.prefix == "zvt::constants" {
@@ -486,9 +483,39 @@ pub fn scan_consts(w: &mut World, ctx: &FileCtx, items: &[syn::Item], _file: &Pa
 /// holds one line per sequence, `<sequence>\t<final variant>,<final variant>,..`, measured by tools/vlib.py on the real code
 /// (which replies end the exchange).  Only unrecognised shapes are filled in; recognised ones are never overridden.
 pub fn apply_probe(w: &mut World) {
+    // sequences without an into_stream of their own run the trait's default body: if THAT is not recognised, their shape is not
+    // known from the source either
+    if w.consts.default_stream_ok != Some(true) {
+        for s in w.seqs.iter_mut() {
+            if let Mode::Single = s.mode {
+                s.mode = Mode::Unrecognised("uses the trait's default into_stream, whose body is not recognised".into());
+            }
+        }
+    }
     let Ok(path) = std::env::var("ZVT2COQ_PROBE") else { return };
     let Ok(text) = std::fs::read_to_string(&path) else { return };
     for line in text.lines() {
+        if let Some(rest) = line.strip_prefix("errtab\t") {
+            // the result-code table as OBSERVED on the running code (code:Variant:hex(text);..): used for every variant whose text the
+            // source does not show in a form the recogniser knows
+            for row in rest.split(';') {
+                let p: Vec<&str> = row.split(':').collect();
+                if p.len() == 3 {
+                    let bytes: Vec<u8> = (0..p[2].len() / 2).filter_map(|i| u8::from_str_radix(&p[2][2 * i..2 * i + 2], 16).ok()).collect();
+                    if let (Ok(code), Ok(text)) = (p[0].parse::<u64>(), String::from_utf8(bytes)) {
+                        let name = p[1].to_string();
+                        let known_code = w.consts.error_codes.iter().any(|(n, c)| *n == name && *c == code);
+                        if !w.consts.error_msgs.iter().any(|(k, _)| *k == name) && known_code {
+                            w.consts.error_msgs.push((name.clone(), text));
+                            if !w.consts.probed.contains(&"zvt::constants::ErrorMessages (texts)".to_string()) {
+                                w.consts.probed.push("zvt::constants::ErrorMessages (texts)".to_string());
+                            }
+                        }
+                    }
+                }
+            }
+            continue;
+        }
         let mut it = line.split('\t');
         let (Some(name), Some(finals)) = (it.next(), it.next()) else { continue };
         for s in w.seqs.iter_mut() {
@@ -526,8 +553,7 @@ pub fn emit_coq(w: &World, unrec: &mut Vec<String>) -> String {
     }
     writeln!(v, "{}].\n", lines.join(";\n")).unwrap();
     match w.consts.default_stream_ok {
-        Some(true) => {}
-        Some(false) => unrec.push("zvt::sequences::Sequence: default into_stream has an unrecognised shape".into()),
+        Some(true) | Some(false) => {}           // Some(false): every sequence using it was marked above and is reported / observed itself
         None => unrec.push("zvt::sequences::Sequence: trait not found".into()),
     }
     writeln!(v, "(* sequences whose shape was OBSERVED on the running code because the source shows it in a form the recogniser does not know *)").unwrap();
